@@ -124,15 +124,19 @@ theorem C11 (s : LockSite) (hmem : s ∈ Chf.Gen.lockSites) (rest : List Stmt) (
   C11_lock_released s (List.all_eq_true.mp sites_ok s hmem) rest hr panics
 
 /-- C11 (status, modelled inputs): every request of the charging model's input space — any subscriber
-    identifier and consumer name as byte strings, any absent consumer identification, any usage list, any
-    session reference, any recharging path parameter — is answered 2xx or 4xx, never 5xx, and a 4xx answer
-    leaves the whole state (including every lock-protected map) as it was. -/
+    identifier and consumer name as byte strings, any absent consumer identification, any malformed PLMN id or
+    incomplete PDU session information, any usage list, any session reference, any recharging path parameter — is
+    answered 2xx or 4xx, never 5xx, and a 4xx answer leaves accounts, reservations, rating modes, session maps and
+    records (every lock-protected map) as they were. -/
 theorem C11_status_modelled (guard : Chf.Charging.SplitGuard) (s : Chf.Charging.State) (op : Chf.Charging.Op)
     (h : ∀ a b c, op ≠ .credit a b c) :
     (Chf.Charging.step guard s op).2.status ∈ [201, 200, 204, 400, 404] ∧
     ((Chf.Charging.step guard s op).2.status = 400 ∨ (Chf.Charging.step guard s op).2.status = 404 →
-      (Chf.Charging.step guard s op).1 = s) :=
-  ⟨Chf.Props.C12.C12_status_set guard s op h, Chf.Props.C12.C12_reject_no_effect guard s op⟩
+      (Chf.Charging.step guard s op).1.accts = s.accts ∧
+      ∀ supi, Chf.Charging.ueView (Chf.Charging.step guard s op).1 supi = Chf.Charging.ueView s supi) :=
+  ⟨Chf.Props.C12.C12_status_set guard s op h,
+   fun h4 => ⟨(Chf.Props.C12.C12_reject_no_money_no_records guard s op h4).1,
+              (Chf.Props.C12.C12_reject_no_money_no_records guard s op h4).2.2.2⟩⟩
 
 /-- C11 (no session whose CDR file cannot be written): a create for a SUPI that cannot name the file
     /tmp/<supi>.cdr — a path separator, a NUL octet, more than 251 octets — is refused with 400 and changes
